@@ -1,4 +1,6 @@
 import RTA.Model.FixedPoint
+import RTA.Model.Derive
+import RTA.Model.Demand
 /-! Token parsers for the line protocol (not part of the trusted model: the driver's
 parser/printer is validated only through the correspondence runs). -/
 
@@ -62,6 +64,180 @@ def pRes : Parser Res
     let (l, ts) ← pNat ts
     pure (.div o l, ts)
   | "panic" :: ts => some (.panic, ts)
+  | _ => none
+
+end RTA.Driver
+
+namespace RTA.Driver
+open RTA
+
+/-- result of parsing a curve term: the delta-min vector, or `none` when a constructor
+assertion / guard of the real code fails on the way (rendered as `panic`) -/
+abbrev CurveVal := Option (List Nat)
+
+def curveOk (d : List Nat) : CurveVal := if d = [] then none else some d
+
+mutual
+/-- terms denoting a concrete `arrival::Curve` -/
+partial def pCurve : Parser CurveVal
+  | "cur" :: ts => do
+    let (d, ts) ← pList pNat ts
+    pure (curveOk d, ts)
+  | "c_it" :: ts => do
+    let (d, ts) ← pList pNat ts
+    pure (curveOk (curveFromIter d), ts)
+  | "c_ab" :: ts => do
+    let (n, ts) ← pNat ts
+    let (a, ts) ← pArr ts
+    pure (a.bind fun a => if a.WF then curveOk (a.curveOfBound n) else none, ts)
+  | "c_abu" :: ts => do
+    let (h, ts) ← pNat ts
+    let (a, ts) ← pArr ts
+    pure (a.bind fun a => if a.WF then curveOk (a.curveOfBoundUntil h) else none, ts)
+  | "c_per" :: ts => do
+    let (p, ts) ← pNat ts
+    pure (some (curveOfPeriodic p), ts)
+  | "c_spo" :: ts => do
+    let (p, ts) ← pNat ts
+    let (j, ts) ← pNat ts
+    pure (if p ≥ 1 then curveOk (curveOfSporadic p j) else none, ts)
+  | "c_pre" :: ts => do
+    let (pv, ts) ← pPrefix ts
+    let ts := match ts with
+      | "byval" :: r => r
+      | r => r
+    pure (pv.bind fun (h, st) => if prefixWF h st then curveOk (curveOfPrefix h st) else none, ts)
+  | "c_tr" :: ts => do
+    let (p, ts) ← pNat ts
+    let (tr, ts) ← pList pNat ts
+    let sorted := tr.Pairwise (· ≤ ·)
+    pure (if sorted then curveOk (curveFromTrace tr p) else none, ts)
+  | "c_ext" :: ts => do
+    let (h, ts) ← pNat ts
+    let (c, ts) ← pCurve ts
+    pure (c.bind fun d => if curveWF d then some (extrapolate d h (extrapolateFuel d h)) else none, ts)
+  | "c_exs" :: ts => do
+    let (n, ts) ← pNat ts
+    let (c, ts) ← pCurve ts
+    pure (c.bind fun d => if curveWF d then some (extrapolateSteps d n n) else none, ts)
+  | "c_exb" :: ts => do
+    let (delta, ts) ← pNat ts
+    let (nj, ts) ← pNat ts
+    let (c, ts) ← pCurve ts
+    pure (c.bind fun d => if delta ≥ 1 then some (extrapolateWithBound d delta nj) else none, ts)
+  | _ => none
+
+/-- terms denoting a concrete `ArrivalCurvePrefix` -/
+partial def pPrefix : Parser (Option (Nat × List (Nat × Nat)))
+  | "pre" :: ts => do
+    let (h, ts) ← pNat ts
+    let (st, ts) ← pList (pPair pNat pNat) ts
+    -- the constructor's own assertions
+    let rec ok : List (Nat × Nat) → Nat → Bool
+      | [], _ => true
+      | (δ, n) :: rest, last => decide (δ ≤ h) && decide (last < n) && ok rest n
+    pure (if ok st 0 then some (h, st) else none, ts)
+  | "p_abu" :: ts => do
+    let (h, ts) ← pNat ts
+    let (a, ts) ← pArr ts
+    pure (a.bind fun a => if a.WF then (a.prefixOfBoundUntil h).map fun st => (h, st) else none, ts)
+  | _ => none
+
+/-- arrival-model terms; `none` inside = construction panics in the real code -/
+partial def pArr : Parser (Option Arr)
+  | "never" :: ts => some (some .never, ts)
+  | "per" :: ts => do
+    let (p, ts) ← pNat ts
+    pure (some (.periodic p), ts)
+  | "spo" :: ts => do
+    let (p, ts) ← pNat ts
+    let (j, ts) ← pNat ts
+    pure (some (.sporadic p j), ts)
+  | "xcur" :: ts => do
+    let (d, ts) ← pList pNat ts
+    pure ((curveOk d).map .xcurve, ts)
+  | "xc" :: ts => do
+    let (c, ts) ← pCurve ts
+    pure (c.map .xcurve, ts)
+  | "pre" :: ts => do
+    let (pv, ts) ← pPrefix ("pre" :: ts)
+    pure (pv.map fun (h, st) => .pfx h st, ts)
+  | "p_abu" :: ts => do
+    let (pv, ts) ← pPrefix ("p_abu" :: ts)
+    pure (pv.map fun (h, st) => .pfx h st, ts)
+  | "prop" :: ts => do
+    let (j, ts) ← pNat ts
+    let (a, ts) ← pArr ts
+    pure (a.map (.prop j), ts)
+  | "agg" :: ts => do
+    let (n, ts) ← pNat ts
+    let (as, ts) ← pRep pArr n ts
+    pure ((as.mapM id).map .agg, ts)
+  | "sli" :: ts => do
+    let (n, ts) ← pNat ts
+    let (as, ts) ← pRep pArr n ts
+    pure ((as.mapM id).map .agg, ts)
+  | "sum" :: ts => do
+    let (a, ts) ← pArr ts
+    let (b, ts) ← pArr ts
+    pure (do let a ← a; let b ← b; pure (.sum a b), ts)
+  | "wj" :: ts => do
+    let (j, ts) ← pNat ts
+    let (a, ts) ← pArr ts
+    pure (a.map (·.withJitter j), ts)
+  | "box" :: ts => pArr ts
+  | ts => do
+    let (c, ts) ← pCurve ts
+    pure (c.map .curve, ts)
+end
+
+/-- cost-curve terms (`wcet::Curve`) -/
+partial def pCostCurve : Parser (Option (List Nat))
+  | "cc" :: ts => do
+    let (w, ts) ← pList pNat ts
+    pure (some w, ts)
+  | "cc_it" :: ts => do
+    let (w, ts) ← pList pNat ts
+    pure (some (curveFromIter w), ts)
+  | "cc_tr" :: ts => do
+    let (m, ts) ← pNat ts
+    let (w, ts) ← pList pNat ts
+    pure (some (costFromTrace w m), ts)
+  | "cc_ext" :: ts => do
+    let (n, ts) ← pNat ts
+    let (c, ts) ← pCostCurve ts
+    pure (c.bind fun w => if w.length ≥ 3 ∧ n = 0 then none else some (costExtrapolate w n n), ts)
+  | _ => none
+
+partial def pCost : Parser (Option Cost)
+  | "sc" :: ts => do
+    let (c, ts) ← pNat ts
+    pure (some (.scalar c), ts)
+  | "mf" :: ts => do
+    let (cs, ts) ← pList pNat ts
+    pure (some (.multiframe cs), ts)
+  | "xcc" :: ts => do
+    let (c, ts) ← pCostCurve ts
+    pure (c.map .xcurve, ts)
+  | "cbox" :: ts => pCost ts
+  | ts => do
+    let (c, ts) ← pCostCurve ts
+    pure (c.map .curve, ts)
+
+partial def pRB : Parser (Option RB)
+  | "rbf" :: ts => do
+    let (a, ts) ← pArr ts
+    let (c, ts) ← pCost ts
+    pure (do let a ← a; let c ← c; pure (.rbf a c), ts)
+  | "ragg" :: ts => do
+    let (n, ts) ← pNat ts
+    let (rs, ts) ← pRep pRB n ts
+    pure ((rs.mapM id).map .agg, ts)
+  | "rsli" :: ts => do
+    let (n, ts) ← pNat ts
+    let (rs, ts) ← pRep pRB n ts
+    pure ((rs.mapM id).map .agg, ts)
+  | "rbox" :: ts => pRB ts
   | _ => none
 
 end RTA.Driver
